@@ -428,6 +428,19 @@ def call_packet(report, db, S):
                     for t in subterms(v):
                         if t[0] == 'op' and t[1] == 'issubclass':
                             pass
+        # list.extend(<the given types, filtered>) on the kept list
+        for c in p.flat(('call',)):
+            if not (c.fn[0] == 'attr' and c.fn[2] == 'extend' and c.args
+                    and any(struct(t) == given
+                            for t in subterms(c.args[0]))):
+                continue
+            recv = c.fn[1]
+            on_attr = struct(recv) == ('attr', ime, attr)
+            if recv[0] == 'call' and recv[1] == ('builtin', '<mutable>'):
+                # the literal the path has just stored in the attribute
+                on_attr = any(e.value == recv[2][0] for e in st)
+            if on_attr:
+                kept = True
         for e in p.events:
             if e.kind != 'loop' or struct(e.ctx) != given:
                 continue
